@@ -149,10 +149,11 @@ func (h *Hub) UnregisterRemoteSKI(ski string) {
 
 	if existingC != nil {
 		existingC.CloseConnection(true, 4500, "User close")
-
-		// a handshake message processed meanwhile may have set the service to trusted again
-		service.SetTrusted(false)
 	}
+
+	// a handshake message processed meanwhile may have set the service to trusted again,
+	// also on a connection that has ended by itself since
+	service.SetTrusted(false)
 }
 
 // Disconnect a connection to an SKI, used by a service implementation
